@@ -88,12 +88,28 @@ class ZipfGen:
                     k += 1
         return out
 
+    def big_cases(self, prefix, full=False):
+        """approximate class with more bins than a 32-bit (signed / unsigned) integer can count, and more than 2^32 bins for
+        the 64-bit types: bin arithmetic that silently assumes `2 * n` or `n * (n + 1)` fits its integer type.  Construction
+        is O(n / 100); the reference is evaluated by Euler-Maclaurin summation at sampled bins (`ZR` with n > 2*10^7)."""
+        cs = [('u32', 1000, 3000000000, 0.0), ('i32', -10**9, 2 * 10**9 + 1, 1.0),
+              ('u64', 7, 5 * 10**9, 1.0), ('i64', -3, 5 * 10**9, 0.99)]
+        if full:
+            cs += [('u32', 0, 2**31 + 5, 1.0), ('i32', -2**31, 2**30 + 7, 0.0), ('u32', 5, 4 * 10**9, 2.0),
+                   ('i64', 10, 4294967296 + 1000, 1.0), ('u64', 0, 2**33, 0.5)]
+        out = []
+        for k, (typ, mn, n, alpha) in enumerate(cs):
+            out.append(dict(id=f'{prefix}big{k}', cls='approx', typ=typ, mn=mn, mx=mn + n - 1, n=n, alpha=alpha, big=True))
+        return out
+
     def header(self, c):
         return f'ZCASE {c["id"]} {c["cls"]} {c["typ"]} {c["mn"]} {c["mx"]} {dbits(c["alpha"]):016x}'
 
     def ks(self, c):
         n = c['n']
         ks = {0, 1, 2, 3, 97, 98, 99, 100, 101, 102, n - 3, n - 2, n - 1, n // 2, n // 3}
+        if c.get('big'):
+            ks |= {2**30 - 1, 2**30, 2**31 - 2, 2**31 - 1, 2**31, 2**32 - 2, 2**32 - 1, 2**32, 2**32 + 1, 100000, 10**7}
         for _ in range(6):
             ks.add(self.rng.randrange(n))
         return sorted(k for k in ks if 0 <= k < n)
